@@ -238,8 +238,8 @@ func C03(c *Ctx) {
 				}
 				return false, 0
 			})
-			n := c.behindEdges("R03.3", "applyBxhTransaction", abt, es, func(in ssa.Instruction) bool { _, ok := isVMEntry(in); return ok }, "invalidReason == \"\"", "VM entry")
-			r.Floor("R03.3", "VM entries in applyBxhTransaction", n, 3)
+			n := c.behindEdges("R03.3", "applyBxhTransaction", abt, es, func(in ssa.Instruction) bool { return isVMEntryThroughHelper(c, in, 0) }, "invalidReason == \"\"", "VM entry")
+			r.Floor("R03.3", "VM entries in applyBxhTransaction", n, 2)
 		}
 	}
 
@@ -276,7 +276,24 @@ func C03(c *Ctx) {
 	}
 	if gv := c.fn("R03.4", poolPrefix+"getValidateAddress"); gv != nil {
 		n := 0
+		// the selection may live in a closure of getValidateAddress or in a helper of the pool it calls
+		scope := core.WithClosures(gv)
 		for _, f := range core.WithClosures(gv) {
+			for _, call := range core.Calls(f) {
+				if g := core.StaticCallee(call); g != nil && len(g.Blocks) > 0 && core.PkgOf(g) == "pkg/proof" && g != gv {
+					dup := false
+					for _, x := range scope {
+						if x == g {
+							dup = true
+						}
+					}
+					if !dup {
+						scope = append(scope, core.WithClosures(g)...)
+					}
+				}
+			}
+		}
+		for _, f := range scope {
 			avail := condEdges(f, func(fc core.Fact, ifi *ssa.If) (bool, int) {
 				if fc.Kind == core.FEqConst && fc.Field == "Status" && fc.Const == "available" {
 					return true, holdsEdge(fc)
@@ -557,4 +574,27 @@ func (c *Ctx) c03Partition(vp *ssa.Function) {
 	r.Floor("R03.7", "group slices of the block in verifyProofs", nSlices, 1)
 	r.Check(openEnded, "R03.7", "verifyProofs: some group extends to the end of the block", c.P.Pos(vp.Pos()), "a group slice is open-ended / ends at len(txs)",
 		"every verification group checks exactly groupLen = len(txs)/groupNum transactions: when the block size is not a multiple of the group count the transactions at its tail are never passed to CheckProof and are executed as if verified")
+}
+
+// isVMEntryThroughHelper: a VM entry, or a call to a helper of the executor package whose body (depth 2) contains one.
+func isVMEntryThroughHelper(c *Ctx, in ssa.Instruction, d int) bool {
+	if _, ok := isVMEntry(in); ok {
+		return true
+	}
+	call, ok := in.(*ssa.Call)
+	if !ok || d >= 2 {
+		return false
+	}
+	g := core.StaticCallee(call)
+	if g == nil || len(g.Blocks) == 0 || core.PkgOf(g) != "internal/executor" {
+		return false
+	}
+	for _, b := range g.Blocks {
+		for _, x := range b.Instrs {
+			if isVMEntryThroughHelper(c, x, d+1) {
+				return true
+			}
+		}
+	}
+	return false
 }
